@@ -1,4 +1,4 @@
-import GoldModel.Lemmas.Locks
+import GoldModel.Lemmas.LocksComplete
 import GoldModel.Gen.E11ParentLink
 /-!
 # C14 — analysis terminates on every workspace shape
@@ -75,33 +75,11 @@ theorem walks_terminate (tparent : Nat → Option Nat) (tchildren : Nat → List
     (start : Nat) (k : Nat) (hk : N < k) :
     (∀ p, tparent start = some p → walkUp tparent stop true k [start] p = .done) ∧
     ∃ vis, walkDownAll tchildren stop true k start = (.done, [], vis) := by
-  have hu : unvisited N [start] ≤ N := by
-    unfold unvisited
-    exact Nat.le_trans (List.length_filter_le _ _) (by simp)
+  have hu : unvisited N [start] ≤ N := unvisited_le N [start]
   constructor
   · intro p hpp
     exact walkUp_visited_done tparent stop N hp k [start] p (hp start p hpp) (by omega)
-  · unfold walkDownAll
-    suffices h : ∀ (l : List Nat), (∀ c ∈ l, c < N) → ∀ (v : List Nat), (∀ x ∈ [start], x ∈ v) →
-        ∃ v', l.foldl (fun (acc : WalkRes × List Nat × List Nat) c =>
-            match acc with
-            | (WalkRes.done, h, v) => walkDown tchildren stop true k h v c
-            | other => other) (WalkRes.done, [], v) = (WalkRes.done, [], v') ∧ ∀ x ∈ v, x ∈ v' by
-      obtain ⟨v', h1, _⟩ := h (tchildren start) (hc start) [start] (fun x hx => hx)
-      exact ⟨v', h1⟩
-    intro l
-    induction l with
-    | nil => intro _ v _; exact ⟨v, rfl, fun x hx => hx⟩
-    | cons c rest ihl =>
-      intro hl v hv
-      simp only [List.foldl_cons]
-      have hvlt : unvisited N v < k := by
-        have := unvisited_mono N [start] v hv
-        omega
-      obtain ⟨v1, e1, s1⟩ := walkDown_visited_done tchildren stop N hc k [] v c (hl c List.mem_cons_self) hvlt
-      rw [e1]
-      obtain ⟨v2, e2, s2⟩ := ihl (fun c hc => hl c (List.mem_cons_of_mem _ hc)) v1 (fun x hx => s1 x (hv x hx))
-      exact ⟨v2, e2, fun x hx => s2 x (s1 x hx)⟩
+  · exact walkDownAll_visited_done tchildren stop N hc start k hk
 
 /-- the pinned walks (no visited set; the downward one holds each node while it searches its
     subtree) end on an ACYCLIC tree with exactly the locks they started with — measure =
@@ -115,6 +93,25 @@ theorem walks_terminate_acyclic (tparent : Nat → Option Nat) (tchildren : Nat 
     exact ⟨m, fun k hk => walkUp_chain_done tparent stop false m k [] n hm hk⟩
   · intro k hk vis
     exact walkDown_ranked_done tchildren stop rank hrank k [] vis n hk (by simp)
+
+/-! ## the property on the model: every request returns, on every workspace -/
+
+/-- **FULL (C14 on the model)**: for EVERY list of class declarations — any class may name
+    itself, another class, a missing class or nothing as parent, in any letter case; any
+    uses-graph; files without a class — and every sequence of requests of every kind (in any
+    order), each request returns: no lookup dead-locks, no walk runs on for ever, the model's
+    own fuel is never what stops it.  Afterwards the pointer graph is acyclic and in range, so
+    every later lookup returns with the lock set empty (`lookups_after_requests_terminate`). -/
+theorem requests_complete (norm : α → α) (ds : List (ClassDecl α)) (reqs : List (Kind × Nat)) :
+    (runRequests Rule.repaired norm ds reqs St.empty).stuck = none ∧
+    Acyclic (ptrOf (runRequests Rule.repaired norm ds reqs St.empty).st) := by
+  obtain ⟨h1, h2, _⟩ := runRequests_completes Rule.repaired norm ds rfl rfl reqs St.empty Good.empty
+  exact ⟨h2, h1.1⟩
+
+/-- … for the rule of the current source -/
+theorem requests_complete_current (norm : α → α) (ds : List (ClassDecl α)) (reqs : List (Kind × Nat)) :
+    (runRequests currentRule norm ds reqs St.empty).stuck = none := by
+  rw [current_rule_is_repaired]; exact (requests_complete norm ds reqs).1
 
 /-! ## the pinned rule violates (a): negation witnesses
 
